@@ -202,12 +202,13 @@ func VerifC11Shutdown() {
 			verifStartSpawned(cg.idx)
 		}
 	}
-	if verifBound("persistloop", 0) == 1 {
-		for _, og := range w.otherGos {
-			if !og.done {
-				og.done = true
-				verifStartSpawned(og.idx) // persist loop
-			}
+	for k, og := range w.otherGos {
+		if k == 0 && verifBound("persistloop", 0) != 1 {
+			continue // [0] is the persist loop started by NewPipelineRunner
+		}
+		if !og.done {
+			og.done = true
+			verifStartSpawned(og.idx)
 		}
 	}
 	for _, vt := range w.timers {
